@@ -4,8 +4,12 @@
    Model: Stats/Welford.v (Value: Store / Collect / AverageValue over exact
    rationals) and Stats/Buckets.v (Stats, BucketStats, Monitor.update,
    AverageStats as a state machine).  Flags: (fix_f21, fix_f22) of [collect],
-   record [fixes] of [mstep]; [pinned] = the code as it is, [all_fixed] = with
-   the proposed repairs F21, F22, C19-N1, C19-N2, C19-N3. *)
+   record [fixes] of [mstep]; [pinned] = the tree as it was pinned, [all_fixed] =
+   with the repairs F21, F22, C19-N1, C19-N2, C19-N3.  All five repairs are fix:
+   commits of /repo and every code_fixed_* flag of Corr/C19.v is true: the
+   correspondence compares /repo with [all_fixed], the positive theorems below
+   speak about the code as it is now, the *_refuted ones about the pinned tree
+   (their witnesses stay in the harness corpus as regression inputs). *)
 From Coq Require Import List QArith ZArith String Permutation.
 Import ListNotations.
 From Onet Require Import Base.Corr Stats.Welford Stats.WelfordProofs Stats.Buckets
@@ -89,9 +93,12 @@ Theorem c19_readouts_idempotent : forall st ops fin,
 Proof. exact readouts_irrelevant. Qed.
 Print Assumptions c19_readouts_idempotent.
 
-(* and in every reachable state a write reports exactly the statistics of the
-   values stored for every measure of that result set, and every measure with
-   stored values is reported *)
+(* in every WELL-FORMED state [wf m] (alive, result sets unlocked with sorted
+   keys, every bucket bound to its own existing result set) a write reports
+   exactly the statistics of the values stored for every measure of that result
+   set, and every measure with stored values is reported.  That every state
+   reachable by any history is well-formed is c19_wf_reachable below;
+   c19_values_report_exact_reachable is the composition. *)
 Theorem c19_values_report_exact : forall fx m i s,
   fx21 fx = true -> fx22 fx = true -> wf m -> nth_error (objs m) i = Some s ->
   exists m' rows, mstep fx m (OValues i) = (m', OutValues (map snd (statics s)) rows) /\
@@ -101,6 +108,31 @@ Theorem c19_values_report_exact : forall fx m i s,
     (forall k, store_at m' i k = store_at m i k).
 Proof. exact values_report_exact. Qed.
 Print Assumptions c19_values_report_exact.
+
+(* [wf] is preserved by EVERY operation of the history language (ONew,
+   OSetBucket well- or malformed, OWire, OMeasure, ODirect, OCollect, OString,
+   OHeader, OValues, OGet, OAverage, OWireErr), hence holds after any history *)
+Theorem c19_wf_step : forall o m, wf m -> wf (fst (mstep all_fixed m o)).
+Proof. exact wf_step. Qed.
+Print Assumptions c19_wf_step.
+
+Theorem c19_wf_reachable : forall st ops, wf (fst (mrun all_fixed (init_state st) ops)).
+Proof. exact wf_reachable. Qed.
+Print Assumptions c19_wf_reachable.
+
+(* after ANY history (set-up, measures, direct updates, new result sets,
+   averages, read-outs, undecodable messages) a write of any result set reports
+   exactly the statistics of the values stored for each of its measures *)
+Theorem c19_values_report_exact_reachable : forall st ops i s,
+  let m := fst (mrun all_fixed (init_state st) ops) in
+  nth_error (objs m) i = Some s ->
+  exists m' rows, mstep all_fixed m (OValues i) = (m', OutValues (map snd (statics s)) rows) /\
+    map fst rows = map fst (vals s) /\
+    (forall k sn, In (k, sn) rows -> snap_eq sn (exact (store_at m i k))) /\
+    (forall k, store_at m i k <> [] -> exists sn, In (k, sn) rows) /\
+    (forall k, store_at m' i k = store_at m i k).
+Proof. exact values_report_exact_reachable. Qed.
+Print Assumptions c19_values_report_exact_reachable.
 
 (* F21: the pinned code counts stored values once per read-out *)
 Theorem c19_double_collect_refuted :
@@ -211,6 +243,36 @@ Theorem c19_average_stats_union : forall fx m i0 srcs s0,
           false]), OutNone).
 Proof. exact average_stats_union. Qed.
 Print Assumptions c19_average_stats_union.
+
+(* END TO END: any history [ops] leads to m; result sets i0 :: srcs over the same
+   measures (each carries every measure of i0) are averaged; any further
+   read-outs [ros] of anything follow; the averaged set (index a) is written:
+   every written measure has exactly the statistics of the union
+   (concatenation in source order; any other arrangement by
+   c19_statistics_of_multiset) of the values the sources held for it, and every
+   measure of i0 is written. *)
+Theorem c19_average_end_to_end : forall st ops i0 srcs ros,
+  let m := fst (mrun all_fixed (init_state st) ops) in
+  let a := List.length (objs m) in
+  (forall i, In i (i0 :: srcs) -> (i < a)%nat) ->
+  (forall k i, has_measure m i0 k -> In i srcs -> has_measure m i k) ->
+  Forall (fun o => is_readout o = true) ros ->
+  let m2 := fst (mrun all_fixed m (OAverage (i0 :: srcs) :: ros)) in
+  exists m3 stt rows, mstep all_fixed m2 (OValues a) = (m3, OutValues stt rows) /\
+    (forall k sn, In (k, sn) rows ->
+       snap_eq sn (exact (List.concat (map (fun i => store_at m i k) (i0 :: srcs))))) /\
+    (forall k, has_measure m i0 k -> exists sn, In (k, sn) rows).
+Proof. exact average_end_to_end. Qed.
+Print Assumptions c19_average_end_to_end.
+
+Example c19_average_end_to_end_satisfiable :
+  let ops := [OSetBucket 0 ["0:2"]; OMeasure "a" 1 0; ONew; ODirect 2 "a" 2; OValues 2;
+              ONew; ODirect 3 "a" 6; ODirect 3 "b" 7] in
+  let m := fst (mrun all_fixed (init_state []) ops) in
+  (forall i, In i [2%nat; 3%nat; 1%nat] -> (i < List.length (objs m))%nat) /\
+  (forall k i, has_measure m 2 k -> In i [3%nat; 1%nat] -> has_measure m i k).
+Proof. exact average_end_to_end_satisfiable. Qed.
+Print Assumptions c19_average_end_to_end_satisfiable.
 
 Example c19_average_example :
   let ops := [ONew; ODirect 1 "a" 1; ODirect 1 "a" 2; OValues 1; ONew; ODirect 2 "a" 6;
